@@ -483,6 +483,20 @@ fn main() {
         );
     }
 
+    ck.run(
+        Section::enumerate(
+            "update-loader-partial-guard-collisions",
+            "for every entry of the 5-entry update section and the first 3 update entries of the 6+8 .idx file, for each guard mask {low 16, high 16, low 24, high 24 bits}: the first packed-offset value whose reference guard agrees with the stored guard on the masked bits only; through UpdateSection::from_bytes / IndexManager::load_index",
+            || {
+                Box::new([("upd:5", 5u16), ("idx:6:5", 3u16)].into_iter().filter(|(n, _)| art::get(n).is_ok()).flat_map(|(n, k)| {
+                    (0..k).flat_map(move |slot| [0x0000_FFFFu32, 0xFFFF_0000, 0x00FF_FFFF, 0xFFFF_FF00].into_iter().map(move |mask| CollideCase { art: n.into(), slot, mask }))
+                }))
+            },
+            check_collide,
+        )
+        .shards(16),
+    );
+
     // -------------------------------------------------------- local header
     {
         ck.run(
